@@ -456,6 +456,13 @@ impl<T: Copy> Buffer<T> {
             n
         );
         for tag in tags {
+            // Tag positions are relative to the write window, and only tags on
+            // the `n` samples being committed belong to this commit. Callers
+            // passing along the tags of a whole read window will see the rest
+            // again with their next window.
+            if tag.pos() >= n {
+                continue;
+            }
             let pos = (tag.pos() + s.wpos) % s.capacity();
             let tag = Tag::new(pos, tag.key(), tag.val().clone());
             s.tags.entry(pos).or_default().push(tag);
